@@ -253,8 +253,9 @@ func GenerateWith(k Knobs, profile string, seed int64, index int, tier string) *
 	g.genWorkloads()
 	g.c.Cycles = g.in(k.CyclesMin, k.CyclesMax)
 	g.c.World = spec.WorldOpts{PBindSucceeds: pick(g, []float64{1, 0.8, 0.5}), PBindFails: pick(g, []float64{0, 0, 0.1}), MaxTerminateCycles: g.in(0, 2), Closed: k.Closed}
+	g.c.World.PPodUpdateLags = pick(g, []float64{0, 0, 0.25})
 	if k.Closed {
-		g.c.World.PBindSucceeds, g.c.World.PBindFails, g.c.World.MaxTerminateCycles = 1, 0, 0
+		g.c.World.PBindSucceeds, g.c.World.PBindFails, g.c.World.MaxTerminateCycles, g.c.World.PPodUpdateLags = 1, 0, 0, 0
 	}
 	if g.p(k.PFaults) {
 		g.c.Faults = spec.Faults{PBindRequestCreateFails: pick(g, []float64{0.1, 0.5}), PPodDeleteFails: pick(g, []float64{0, 0.1, 0.5}), PEvictCallFails: pick(g, []float64{0, 0, 0.2})}
@@ -530,7 +531,19 @@ func (g *G) template() podTemplate {
 	case "fraction":
 		t.frac = pick(g, []string{"0.5", "0.25", "0.3", "0.7", "0.1", "0.33", "0.6", "1", "0.45", "0.05", "0.9"})
 	case "gpumem":
-		t.gpuMem = pick(g, []string{"1000", "4000", "8000", "2048", "12000", "50", "20000", "16384", "32768", "30218", "81920"}) // incl. exactly one device and integral multiples of a device
+		t.gpuMem = pick(g, []string{"1000", "4000", "8000", "2048", "12000", "50", "20000"})
+		if g.p(0.2) {
+			// exactly one device, or an integral multiple of a device of some node of this cluster
+			var mems []int64
+			for _, n := range g.c.Objects.Nodes {
+				if m, err := strconv.ParseInt(n.Labels["nvidia.com/gpu.memory"], 10, 64); err == nil && m > 0 {
+					mems = append(mems, m)
+				}
+			}
+			if len(mems) > 0 {
+				t.gpuMem = strconv.FormatInt(mems[g.r.IntN(len(mems))]*int64(g.in(1, 2)), 10)
+			}
+		}
 	case "multifrac":
 		t.devices = int64(g.in(2, 3))
 		if g.p(0.7) {
